@@ -300,6 +300,10 @@ def _note_parts(tier):
         sc.add_measures(p)
         return p
     out.append(("a_note_removed_before_the_measures_were_added", edited_by_removal))
+    # tuplet values under divisions with which the float product of value and ratio falls just short of the whole number
+    out.append(("tuplet_values_at_11_divisions", lambda: G.build_part("P", 11, notes=[("a", 0, 15, "C", None, 4, 1, 1), ("b", 15, 14, "D", None, 4, 1, 1), ("c", 29, 30, "E", None, 4, 1, 1), ("lo", 0, 44, "C", None, 3, 2, 1)], measures=[(0, 44), (44, 88)])))
+    out.append(("tuplet_values_at_45_and_480_divisions", lambda: G.build_part("P", 45, quarter_changes=[(180, 480)], notes=[("a", 0, 63, "C", None, 4, 1, 1), ("b", 63, 117, "D", None, 4, 1, 1), ("c", 180, 123, "E", None, 4, 1, 1),
+                                                                                                                     ("d", 303, 1797, "F", None, 4, 1, 1)], measures=[(0, 180), (180, 2100)])))
     # a voice entering after a silence whose length is not one notated value (5 sixteenths; 17 thirty-seconds)
     out.append(("voice_enters_after_a_composite_silence", lambda: G.build_part("P", 8, notes=[("a", 10, 22, "C", None, 4, 1, 1), ("b", 32, 32, "D", None, 4, 1, 1), ("c", 81, 15, "E", None, 4, 1, 1), ("lo", 0, 96, "C", None, 3, 2, 1)],
                                                                               measures=[(0, 32), (32, 64), (64, 96)])))
@@ -411,4 +415,11 @@ def bounded(b):
                 if sd and n.duration and isinstance(sd, dict) and sd.get("type"):
                     if _numeric(sd, _q(part, n)) != n.duration:
                         good, what = False, "note %s duration %d but symbolic %r = %s under %d divisions" % (n.id, n.duration, sd, _numeric(sd, _q(part, n)), _q(part, n))
+                    # ... and the library's own evaluation of the symbolic duration says the same (to float rounding)
+                    try:
+                        own = float(n.duration_from_symbolic)
+                    except Exception as e:
+                        own = None
+                    if own is not None and abs(own - float(_numeric(sd, _q(part, n)))) > 1e-6:
+                        good, what = False, "note %s: symbolic %r evaluates to %s under %d divisions, duration_from_symbolic says %r" % (n.id, sd, _numeric(sd, _q(part, n)), _q(part, n), own)
             b.case("normalise/assigned_symbolic_durations_evaluate_to_numeric", good, case, what)
